@@ -234,7 +234,7 @@ pub fn run(ctx: &mut Ctx) -> (&'static str, String, bool) {
     }
 
     // ---- (b,c) valid frames of every kind: every byte position x every value, truncations, extensions, bit flips
-    let frames_per_kind = ctx.tier.pick(1usize, 6usize);
+    let frames_per_kind = ctx.tier.pick(2usize, 6usize);
     let parts: Vec<Part> = c
         .kinds()
         .par_iter()
